@@ -170,12 +170,23 @@ def frame_body(case):
         return body, cl, headers, (body[:cl] if cl is not None else b'')
     wire, layout = encode_chunked(body, case['chunks'], trailers=(['X-T: 1'] if case['fr_b'] % 5 == 0 else ()))
     headers['Transfer-Encoding'] = 'chunked'
+    logical = body
     if fr == 'chunked_trunc':
-        wire = wire[:case['fr_a'] % (len(wire) + 1)]
+        cut = case['fr_a'] % (len(wire) + 1)
+        if cut < len(wire):
+            logical = None          # what a decoder makes of a truncated coding is C05's business: completeness is not judged against it
+        wire = wire[:cut]
     elif fr == 'chunked_corrupt' and wire:
         i = case['fr_a'] % len(wire)
+        hit = [(s, e, sum(e2 - s2 for k2, s2, e2 in layout if k2 == 'data' and e2 <= s)) for k, s, e in layout if k == 'data' and s <= i < e]
+        if hit:
+            s0, e0, before = hit[0]
+            j = before + (i - s0)           # the corrupted byte is payload: the body actually sent differs at that offset
+            logical = body[:j] + bytes([case['fr_b']]) + body[j + 1:]
+        else:
+            logical = None          # corrupted framing: the de-framed body is whatever the decoder accepts
         wire = wire[:i] + bytes([case['fr_b']]) + wire[i + 1:]
-    return wire, None, headers, body
+    return wire, None, headers, logical
 
 
 def boundary_of(ctype):
@@ -234,7 +245,7 @@ def check_case(ctx, case):
         bnd = boundary_of(case['ctype'])
         is_mp = case['ctype'].lower().startswith('multipart/')
         for acc, v in seen:
-            if acc in ('forms', 'files', 'POST') and is_mp:
+            if acc in ('forms', 'files', 'POST') and is_mp and logical is not None:
                 for k, items in v.items():
                     for it in items:
                         if it is None:
